@@ -59,6 +59,27 @@ def inner_split_shape_check(A: Analysis, col: Collector, rule: str):
     for node, call, tokvar in apps:
         dot_tests = [t for t in cfg.nodes if t.kind == "test" and isinstance(t.stmt, ast.If) and norm(t.stmt.test) in (f"{tokvar} == '.'", f"'.' == {tokvar}")]
         if not dot_tests:
+            # the shape check may live in a helper that is called with the token on every path to the application
+            helper_ok = None
+            for hn in cfg.nodes:
+                for hc in _calls(hn):
+                    if not any(isinstance(a_, ast.Name) and a_.id == tokvar for a_ in hc.args):
+                        continue
+                    for h in [t_ for t_ in A.rs.resolve_call(hc, fn).repo_targets if isinstance(t_, FuncInfo)]:
+                        hp = [p_.arg for p_ in h.params()]
+                        ti = next(i for i, a_ in enumerate(hc.args) if isinstance(a_, ast.Name) and a_.id == tokvar)
+                        if ti >= len(hp):
+                            continue
+                        tp_ = hp[ti]
+                        for i_ in walk_own(h.node):
+                            if isinstance(i_, ast.If) and norm(i_.test) in (f"{tp_} == '.'", f"'.' == {tp_}"):
+                                inner = [k for k in ast.walk(i_) if isinstance(k, ast.If) and k is not i_ and isinstance(k.test, ast.Compare) and len(k.test.ops) == 1 and isinstance(k.test.ops[0], ast.NotEq) and isinstance(k.test.left, ast.Name) and isinstance(k.test.comparators[0], ast.Name) and k.test.left.id in hp and k.test.comparators[0].id in hp and k.body and isinstance(k.body[-1], ast.Raise)]
+                                if inner and cfg.dominated_by(node, lambda m, _hn=hn: m is _hn):
+                                    helper_ok = (h, hc)
+            if helper_ok is not None:
+                col.scope(helper_ok[0].qualname)
+                col.ok(rule, f"the operand shapes are compared (raising on a mismatch) under `token == '.'` in {helper_ok[0].name}, whose call dominates the operator application", A.loc(helper_ok[1]))
+                continue
             col.fail(rule, fn.qualname, "no-inner-operator-branch", f"no branch on `{tokvar} == '.'` precedes the operator application: inner splits of different lengths are truncated by zip", A.loc(call))
             continue
         for dt in dot_tests:
